@@ -30,6 +30,7 @@ func main() {
 	replay := flag.String("replay", "", "replay file: re-run its rule instance on the current tree")
 	list := flag.Bool("list", false, "list registered properties")
 	dump := flag.String("dump", "", "debug: dump an inventory (visitors:<Handle>:<Sum,...>)")
+	emit := flag.Bool("emit-findings", false, "print a known-findings line for every new violation (for triage; never written to the file)")
 	flag.Parse()
 
 	if *list {
@@ -153,6 +154,13 @@ func main() {
 			}
 			if len(altCtx) > 0 {
 				r.Extra["configurations"] = []string{"linux/amd64", "windows/amd64", "linux/386"}
+			}
+			if *emit {
+				for _, o := range r.Obs {
+					if o.Verdict == Violation {
+						fmt.Printf("finding: property=%s rule=%s construct=%s — %s\n", id, o.Rule, o.Construct, o.Msg)
+					}
+				}
 			}
 			wall := time.Since(t1).Seconds() + loadWall
 			if c := finish(ctx, r, *verif, seed, wall, known); c > exit {
